@@ -69,8 +69,8 @@ PropertyHolds == Deviations = {} => MountEqualsExpected /\ Doc3EqualsMount /\ Do
    answer.  A verdict is accepted when the exchange satisfies C14 (schema and server agree, consistently with the design),
    or when it is exactly what the mechanism does under the recorded deviations. *)
 XMal == \E i \in PIdx : Malformed(pv[i])
-XSat == Satisfies(cfg.pa, pv) /\ xflag = "none" /\ ~XMal
-XVio == Violates(cfg.pa, pv) \/ XMal \/ xflag = "omit"
+XSat == Satisfies(cfg.pa, pv) /\ xflag \in {"none", "rd"} /\ ~XMal
+XVio == Violates(cfg.pa, pv) \/ XMal \/ xflag \in OmitFlags
 TXReset == /\ Is("xreset") /\ pc \in {"pick", "done"}
            /\ cfg' = [pa |-> Ev.pa, ra |-> Ev.ra, tagged |-> Ev.tagged, devs |-> Deviations] /\ pv' = Ev.pv /\ rv' = Ev.rv /\ xflag' = Ev.flag
            /\ pc' = "encode" /\ wire' = <<>> /\ delivered' = <<>> /\ invoked' = FALSE /\ status' = 0 /\ errname' = "none"
